@@ -15,15 +15,28 @@ pub fn run(ctx: &mut Ctx) {
     let mut metas = vec![];
     for i in 0..n {
         let big = i % 12 == 11;
-        let max_work = if big { 4096 } else { *ctx.rng.pick(&[16usize, 32, 64, 128]) };
+        // one group in five: mid-sized work spaces (128..512 positions) with an exact set whose top
+        // recovery shard sits on a power-of-two position (transform-size / truncation arithmetic)
+        let edge = i % 5 == 4;
+        let max_work = if big { 4096 } else if edge { *ctx.rng.pick(&[128usize, 256, 512]) } else { *ctx.rng.pick(&[16usize, 32, 64, 128]) };
         let cfg = gen_cfg(&mut ctx.rng, max_work, &["high", "low", "default", "rs"], &ENGINES, if big || max_work > 64 { &[2, 4] } else { &SMALL_SIZES });
         let originals = gen_originals(&mut ctx.rng, cfg.k, cfg.sb);
         let Some(recovery) = encode_impl(&cfg, &originals) else { continue };
         // a sufficient base set that misses at least one original when possible
         let miss = ctx.rng.range(1, cfg.r.min(cfg.k));
         let missing = ctx.rng.subset(cfg.k, miss);
-        let base_o: Vec<usize> = (0..cfg.k).filter(|i| !missing.contains(i)).collect();
-        let base_r = ctx.rng.subset(cfg.r, miss);
+        let mut base_o: Vec<usize> = (0..cfg.k).filter(|i| !missing.contains(i)).collect();
+        let mut base_r = ctx.rng.subset(cfg.r, miss);
+        // every other group takes its base set from the shared loss-pattern generator (boundary-hugging
+        // windows, lowest-numbered recovery shards, top shard on a power-of-two position, …)
+        if i % 2 == 0 || edge {
+            let (go, gr, pat) = if edge { gen_received_pat(&mut ctx.rng, cfg.k, cfg.r, 12) } else { gen_received(&mut ctx.rng, cfg.k, cfg.r) };
+            if go.len() < cfg.k && !gr.is_empty() {
+                base_o = go;
+                base_r = gr;
+                ctx.count("base_pattern", pat);
+            }
+        }
         for v in 0..variants {
             // supersets add recovery shards only (adding originals changes what must be restored)
             let extra = match v % 3 { 0 => 0, 1 => 1.min(cfg.r - base_r.len()), _ => cfg.r - base_r.len() };
